@@ -83,7 +83,7 @@ fn o6_1_assembly_alloc_invariant() {
     std::mem::forget(r0); std::mem::forget(r1); std::mem::forget(w);
 }
 
-//@h props=C04,C06 tier=quick timeout=1500 role=assembly-reassembly args=--no-memory-safety-checks
+//@h props=C04,C06 tier=quick timeout=1500 role=assembly-reassembly args=--no-memory-safety-checks cbmc=--max-field-sensitivity-array-size+512
 //@assume Kani pointer checks off in this functional obligation (the allocator-layout check of the same path is the C19 obligation)
 //@fn AssemblyWindow::try_add, FragmentBuffer::{new, write, is_finished, finalize}
 //@bound one slot; a 2-fragment packet (1448 + 2 bytes); arrivals: fragment 0, then a datagram for the same slot whose header DISAGREES in at least one of channel / leads / last-fragment id (fragment id 1, any payload), then the genuine fragment 1
